@@ -93,6 +93,11 @@ Definition runs_equal (runs : list (list N)) : bool :=
   | r :: tl => forallb (list_n_eqb r) tl
   end.
 
+(** ** large transaction roots: every run (every CPU count, GOMAXPROCS, process
+    history) produced the roots of the sequential reference computation *)
+Definition runs_match (ref : list N) (runs : list (list N)) : bool :=
+  forallb (list_n_eqb ref) runs.
+
 (** ** child-chain table: contiguous slices covering [0, total) *)
 Fixpoint contiguous (from total : nat) (segs : list (nat * nat)) : bool :=
   match segs with
